@@ -103,7 +103,24 @@ def make_object(lc, seq, rng, allow_shuffle=True):
     normalisation is part of the API), or as the child returned by get_shuffled_sequence(frozen) of such an object (its
     sequence is then a rearrangement of `seq`).  Returns (object, its sequence, how)."""
     r = rng.random()
-    if r < 0.55:
+    if r < 0.45:
+        return lc.SP(seq), seq, "direct"
+    if r < 0.52:
+        return lc.SP(SeqObj=lc.Sequence(seq)), seq, "from a backend Sequence object (SeqObj=)"
+    if r < 0.60:
+        import os
+        import tempfile
+        d = os.path.join(common.VERIF, ".work", "objfiles")
+        os.makedirs(d, exist_ok=True)
+        fd, path = tempfile.mkstemp(dir=d, suffix=".fasta")
+        with os.fdopen(fd, "w") as f:
+            f.write(">made by the harness\n" + "\n".join(seq[i:i + 60] for i in range(0, len(seq), 60)) + "\n")
+        try:
+            out = common.call(lambda: lc.SP(sequenceFile=path))
+        finally:
+            os.remove(path)
+        if out[0] == "ok":
+            return out[1], seq, "from a FASTA file (sequenceFile=)"
         return lc.SP(seq), seq, "direct"
     if r < 0.8 or not allow_shuffle or len(seq) < 2:
         text = "".join((rng.choice(WS_CHARS) if rng.random() < 0.1 else "") + (c.lower() if rng.random() < 0.4 else c) for c in seq) + rng.choice(["", "\n", " "])
